@@ -42,3 +42,11 @@ Definition adj_of (rp : response) : adjustment := match rp_adjust rp with Some a
 Definition adjs (rps : list response) : list adjustment := map adj_of rps.
 
 Definition wf_create (c0 : container) (rps : list response) : bool := forallb wf_adj (adjs rps).
+
+(* C04's first theorem (what a plugin is shown = the sequential reference result) needs W4 only *)
+Definition args_w4 (args : list string) : bool :=
+  match args with
+  | [a0] => negb (String.eqb a0 "")
+  | _ => true
+  end.
+Definition wf_views (rps : list response) : bool := forallb (fun p => args_w4 (a_args p)) (adjs rps).
